@@ -611,7 +611,11 @@ def iter_state():
     """classes of the document model that are their own iterators: which fields an iteration stores, and which of
     them the leading statements of __iter__ reset to a constant"""
     rows = []
-    for rel in ("neuroml/hdf5/NetworkContainer.py", "neuroml/nml/nml.py"):
+    import glob
+    rels = sorted(set(os.path.relpath(f, REPO) for pat in ("neuroml/*.py", "neuroml/hdf5/*.py", "neuroml/nml/*.py")
+                      for f in glob.glob(os.path.join(REPO, pat))))
+    rels = [r for r in rels if not r.endswith("helper_methods.py") and "/test" not in r]
+    for rel in rels:
         for cname, c in module(rel).classes.items():
             meths = {n.name: n for n in c.body if isinstance(n, ast.FunctionDef)}
             if "__next__" not in meths and "__iter__" not in meths:
@@ -703,8 +707,56 @@ def parser_table():
     return rows
 
 
+def refusal_table():
+    """every `raise` in an exportHdf5 method (the constructs the HDF5 layout cannot hold), with the tests / loops
+    that guard it: (class, [guards outermost first], first string of the message, line)"""
+    rows = []
+    for rel, cname, fn in method_index().get("exportHdf5", []):
+
+        def visit(stmts, guards):
+            for st in stmts:
+                if isinstance(st, ast.Raise):
+                    msg = ""
+                    if st.exc is not None:
+                        for n in ast.walk(st.exc):
+                            if isinstance(n, ast.Constant) and isinstance(n.value, str):
+                                msg = n.value
+                                break
+                    rows.append({"cls": cname, "file": rel, "guards": list(guards), "message": msg, "line": st.lineno})
+                elif isinstance(st, ast.If):
+                    g = dotted(st.test)
+                    visit(st.body, guards + [g])
+                    visit(st.orelse, guards + ["not (%s)" % g])
+                elif isinstance(st, (ast.For, ast.While)):
+                    g = "for %s in %s" % (dotted(st.target), dotted(st.iter)) if isinstance(st, ast.For) else "while %s" % dotted(st.test)
+                    visit(st.body, guards + [g])
+                    visit(st.orelse, guards)
+                elif isinstance(st, ast.Try):
+                    visit(st.body, guards + ["try"])
+                    for h in st.handlers:
+                        visit(h.body, guards + ["except %s" % (dotted(h.type) if h.type else "")])
+                    visit(st.orelse, guards)
+                    visit(st.finalbody, guards)
+                elif isinstance(st, ast.With):
+                    visit(st.body, guards)
+                elif isinstance(st, (ast.FunctionDef, ast.ClassDef)):
+                    raise Untranslatable("%s:%s.exportHdf5:%d:nested definition" % (rel, cname, st.lineno))
+
+        visit(fn.body, [])
+    rows.sort(key=lambda r: (r["file"], r["cls"], r["line"]))
+    return rows
+
+
 def main():
     out = {"entries": [], "untranslatable": [], "expected": [e[0] for e in ENTRIES]}
+    try:
+        out["refusals"] = refusal_table()
+    except Untranslatable as u:
+        out["refusals"] = []
+        out["untranslatable"].append(str(u))
+    except (OSError, SyntaxError) as x:
+        out["refusals"] = []
+        out["untranslatable"].append("neuroml/nml/nml.py:refusal_table:0:%s" % x)
     try:
         out["parsers"] = parser_table()
     except (OSError, SyntaxError) as x:
